@@ -1143,3 +1143,7 @@ MUTANTS.append({"id": "C15-declared-type-not-stacked", "prop": "C15", "benign": 
   "expect": "R15.13|current_type|pushed-before-replaced",
   "edits": [("src/cppparser/cppBison.yxx", "  // These declarations can nest: an initializer may contain a class\n  // definition with members of its own (e.g. within sizeof).\n  last_types.push_back(current_type);\n", ""),
             ("src/cppparser/cppBison.yxx", "        multiple_instance_identifiers\n{\n  pop_storage_class();\n  current_type = last_types.back();\n  last_types.pop_back();\n}", "        multiple_instance_identifiers\n{\n  pop_storage_class();\n}")]})
+
+M("C15-hex-literal-through-stoull", "C15", "src/cppparser/cppPreprocessor.cxx",
+  "    result.u.integer = strtol(num.c_str(), nullptr, 16);", "    result.u.integer = std::stoull(num, nullptr, 16);",
+  expect="R15.15|CPPPreprocessor::get_number|stoull")
